@@ -1,5 +1,6 @@
 """C11 — schemas built from SDL contain exactly what the SDL declares."""
 import ast
+import re
 
 from .. import boolx, shapes, nodeshape, excflow
 from ..model import AnalysisError, own_nodes, norm_stmt
@@ -433,6 +434,41 @@ def check(prog, run):
                     (isinstance(n.func.value, ast.Subscript) or (isinstance(n.func.value, ast.Call) and isinstance(n.func.value.func, ast.Attribute)
                                                                   and n.func.value.func.attr == "setdefault")):
                 rg.instance("%s: %s" % (f.qualname, norm_stmt(n, 60)))
+
+    # ---- O1 root operation types: declared by `schema { ... }` when there is one, inferred by name only when there is none
+    ro = run.rule("O1", "build_schema_ignoring_extensions: the tests that infer a root operation type from a conventional type name "
+                        "(\"Query\" / \"Mutation\" / \"Subscription\") are evaluated on the executions without a schema definition and on "
+                        "none of the executions with one - a document that says `schema { query: Root }` has exactly the roots it lists, "
+                        "whatever other types are called", 2)
+    bsi = prog.get_func("py_gql.sdl.schema_from_ast", "build_schema_ignoring_extensions")
+    run.looked_at(bsi)
+    CONV = {"Query", "Mutation", "Subscription", "query", "mutation", "subscription"}
+    infer = [n for n in own_nodes(bsi.node) if isinstance(n, ast.Compare)
+             and any(isinstance(x, ast.Constant) and x.value in CONV for x in ast.walk(n))
+             and any(isinstance(x, ast.Attribute) and x.attr == "name" for x in ast.walk(n))]
+    shapes.require(bool(infer), "C11.O1: no name-based inference of root types found in build_schema_ignoring_extensions")
+    marks = {id(x) for n in infer for x in ast.walk(n) if isinstance(x, ast.Attribute)}
+    for present in (False, True):
+        def decide(t, present=present):
+            tt = t.replace(" ", "")
+            if re.match(r"^\w*schema_def\w*isNone$", tt):
+                return not present
+            if re.match(r"^\w*schema_def\w*$", tt):
+                return present
+            return None
+        try:
+            ev, exits = boolx.walk_under(bsi.node, decide)
+        except ValueError as e:
+            raise AnalysisError("C11.O1: %s" % e)
+        hit = sorted({getattr(n, "lineno", 0) for i, (n, _env) in ev.items() if i in marks})
+        ro.instance("schema definition %s: name-based inference evaluated at lines %s" % ("present" if present else "absent", hit))
+        if present and hit:
+            run.report(ro, "py_gql.sdl.schema_from_ast:build_schema_ignoring_extensions:implicit-roots-with-schema-definition", bsi.where(infer[0]),
+                       "root operation types are inferred from the type names Query / Mutation / Subscription although the document has a "
+                       "schema definition: `schema { query: Root } type Mutation { ... }` gets a mutation root it does not declare")
+        if not present and not hit:
+            run.report(ro, "py_gql.sdl.schema_from_ast:build_schema_ignoring_extensions:no-implicit-roots", bsi.where(),
+                       "without a schema definition the conventional names are never consulted")
 
     # ---- U1 every iteration variable is used (merging loops over extension blocks)
     from .. import itervars
